@@ -49,7 +49,7 @@ ASSUMPTIONS = [
 ]
 REQUIRED_CLASSES = {
     "all": ["structure=free", "structure=adjoint_pair", "structure=hermitian_square", "structure=sandwich",
-            "structure=recurrence", "recurrence-lazy-zeroth-order", "hermitian_flag", "identity-in-hermitian-product", "mode=scalar", "mode=complex", "n_inf=3", "factors=4", "predeclared"]
+            "structure=recurrence", "recurrence-lazy-zeroth-order", "hermitian_flag", "identity-in-hermitian-product", "mode=scalar", "mode=complex", "mode=object", "n_inf=3", "factors=4", "predeclared"]
 }
 
 
@@ -58,7 +58,7 @@ REQUIRED_CLASSES = {
 def _case(draw, tier):
     structure = draw(st.sampled_from(["free", "free", "adjoint_pair", "hermitian_square", "sandwich", "recurrence"]))
     n_inf = draw(st.integers(1, 3))
-    mode = draw(st.sampled_from(["real", "complex", "scalar"]))
+    mode = draw(st.sampled_from(["real", "complex", "scalar", "object"]))
     dmax = 3
     if structure == "free":
         k = draw(st.integers(2, 4))
@@ -177,6 +177,10 @@ class Factors:
             return None if val == 0 else val
         if not arr.any():
             return None
+        if c["mode"] == "object":
+            # object-dtype blocks holding Python complex numbers (what exact or extended-precision element types look
+            # like to numpy: `np.isrealobj` is True for them although the entries are not real)
+            arr = np.array([[complex(z) for z in row] for row in arr], dtype=object)
         return arr
 
     def dag(self, v):
